@@ -94,6 +94,23 @@ class Obj:
         return 'Obj(%s)' % ', '.join(sorted(self.__dict__))
 
 
+class FalsyObj(Obj):
+    """an attribute object that is falsy (an empty tree node, a zero-length record): it has children all the same"""
+    def __bool__(self):
+        return False
+
+    def __repr__(self):
+        return 'FalsyObj(%s)' % ', '.join(sorted(self.__dict__))
+
+
+class ZeroLenObj(Obj):
+    def __len__(self):
+        return 0
+
+    def __repr__(self):
+        return 'ZeroLenObj(%s)' % ', '.join(sorted(self.__dict__))
+
+
 class Slot:
     __slots__ = ('a',)
 
@@ -121,10 +138,11 @@ LEAVES = [1, 2, 'leaf', '', None, 2.5, 'a']
 def gen_graph(rng):
     """returns (root, nodes, n_edges, features)"""
     n = rng.randint(1, 8)
-    kinds = [rng.choice(['dict', 'dict', 'odict', 'list', 'list', 'obj', 'baddict']) for _ in range(n)]
+    kinds = [rng.choice(['dict', 'dict', 'odict', 'list', 'list', 'obj', 'baddict', 'falsyobj', 'zerolenobj']) for _ in range(n)]
     nodes = []
     for k in kinds:
-        nodes.append({'dict': dict, 'odict': OrderedDict, 'list': list, 'obj': Obj, 'baddict': BadDict}[k]())
+        nodes.append({'dict': dict, 'odict': OrderedDict, 'list': list, 'obj': Obj, 'baddict': BadDict, 'falsyobj': FalsyObj,
+                      'zerolenobj': ZeroLenObj}[k]())
     edges = 0
     feats = set()
     extra = []     # immutable / one-shot nodes built from existing ones
@@ -548,6 +566,39 @@ def after_path_cache_overflow(col, rng):
             return
 
 
+class _Walked:
+    __slots__ = ('items',)
+
+    def __init__(self, items):
+        self.items = items
+
+
+def wildcards_follow_the_registry_in_force(col):
+    """how * / ** walk an object is decided by the registry the call runs on, at the time of the call: a type first met
+    while unregistered, then registered; two Glommers that walk one class differently; a registration on the module-level
+    registry after a wildcard already met the type"""
+    from glom import Glommer
+    import glom as glom_pkg
+    w = lambda: {'w': _Walked(['p', 'q'])}
+    first = call(G, w(), 'w.*')                                  # unregistered slots object: nothing below it
+    g1 = Glommer(); g1.register(_Walked, iterate=lambda o: iter(o.items))
+    g2 = Glommer(); g2.register(_Walked, iterate=lambda o: iter([x.upper() for x in o.items]))
+    seq = [('plain glom before any registration', first, []), ('Glommer #1 (iterate registered)', call(g1.glom, w(), 'w.*'), ['p', 'q']),
+           ('Glommer #2 (another iterate)', call(g2.glom, w(), 'w.*'), ['P', 'Q']), ('Glommer #1 again', call(g1.glom, w(), 'w.**'), None),
+           ('plain glom again', call(G, w(), 'w.*'), [])]
+    for desc, got, want in seq:
+        col.case(('registry-in-force', desc), True)
+        col.count('wildcard_evaluations')
+        if want is not None and (not got.ok or got.value != want):
+            col.violation('C14/wildcard-ignores-the-registry-in-force', "%s: 'w.*' over a registered-by-some class gave %r, expected %r" % (desc, got, want), None)
+            return
+    glom_pkg.register(_Walked, iterate=lambda o: iter(o.items))
+    got = call(G, w(), 'w.*')
+    col.count('wildcard_evaluations')
+    if not got.ok or got.value != ['p', 'q']:
+        col.violation('C14/wildcard-ignores-the-registry-in-force', "after glom.register(_Walked, iterate=..): 'w.*' gave %r, expected ['p', 'q']" % (got,), None)
+
+
 def run(ctx):
     col, rng = ctx.col, ctx.rng
     counter = StepCounter()
@@ -565,6 +616,7 @@ def run(ctx):
         for i in range(ctx.n(2500, 10000)):
             mutate_case(col, rng)
         if ctx.shard == 0:
+            wildcards_follow_the_registry_in_force(col)
             after_path_cache_overflow(col, rng)
             col.require('path_cache_overflows', 1)
     finally:
